@@ -1617,3 +1617,67 @@ MUTANTS += [
  dict(name='benign-r6-C03-row-carry-dropped', prop='C03', expect='VIOLATION property=C03', patch='selftest/fixes/benign-r6-C03.patch',
       edits=[('include/core/bigint.hpp', 'dword_t new_word = factor * ((dword_t) *src) + carry;', 'dword_t new_word = factor * ((dword_t) *src);')]),
 ]
+
+# ---- benign round 7: three small everyday edits per property (renames, counter types, != to <, named constants, early returns, ...)
+MUTANTS += [
+ dict(name='benign-r7-C02-1', prop='C02', benign=True, expect='', patch='selftest/fixes/benign-r7-C02-1.patch'),
+ dict(name='benign-r7-C02-1-on-C03', prop='C03', benign=True, expect='', patch='selftest/fixes/benign-r7-C02-1.patch'),
+ dict(name='benign-r7-C02-2', prop='C02', benign=True, expect='', patch='selftest/fixes/benign-r7-C02-2.patch'),
+ dict(name='benign-r7-C02-2-on-C03', prop='C03', benign=True, expect='', patch='selftest/fixes/benign-r7-C02-2.patch'),
+ dict(name='benign-r7-C02-3', prop='C02', benign=True, expect='', patch='selftest/fixes/benign-r7-C02-3.patch'),
+ dict(name='benign-r7-C02-3-on-C03', prop='C03', benign=True, expect='', patch='selftest/fixes/benign-r7-C02-3.patch'),
+ dict(name='benign-r7-C04-1', prop='C04', benign=True, expect='', patch='selftest/fixes/benign-r7-C04-1.patch'),
+ dict(name='benign-r7-C04-1-on-C18', prop='C18', benign=True, expect='', patch='selftest/fixes/benign-r7-C04-1.patch'),
+ dict(name='benign-r7-C04-2', prop='C04', benign=True, expect='', patch='selftest/fixes/benign-r7-C04-2.patch'),
+ dict(name='benign-r7-C04-2-on-C18', prop='C18', benign=True, expect='', patch='selftest/fixes/benign-r7-C04-2.patch'),
+ dict(name='benign-r7-C04-3', prop='C04', benign=True, expect='', patch='selftest/fixes/benign-r7-C04-3.patch'),
+ dict(name='benign-r7-C04-3-on-C18', prop='C18', benign=True, expect='', patch='selftest/fixes/benign-r7-C04-3.patch'),
+ dict(name='benign-r7-C06-1', prop='C06', benign=True, expect='', patch='selftest/fixes/benign-r7-C06-1.patch'),
+ dict(name='benign-r7-C06-1-on-C17', prop='C17', benign=True, expect='', patch='selftest/fixes/benign-r7-C06-1.patch'),
+ dict(name='benign-r7-C06-2', prop='C06', benign=True, expect='', patch='selftest/fixes/benign-r7-C06-2.patch'),
+ dict(name='benign-r7-C06-2-on-C17', prop='C17', benign=True, expect='', patch='selftest/fixes/benign-r7-C06-2.patch'),
+ dict(name='benign-r7-C06-3', prop='C06', benign=True, expect='', patch='selftest/fixes/benign-r7-C06-3.patch'),
+ dict(name='benign-r7-C06-3-on-C17', prop='C17', benign=True, expect='', patch='selftest/fixes/benign-r7-C06-3.patch'),
+ dict(name='benign-r7-C08-1', prop='C08', benign=True, expect='', patch='selftest/fixes/benign-r7-C08-1.patch'),
+ dict(name='benign-r7-C08-1-on-C01', prop='C01', benign=True, expect='', patch='selftest/fixes/benign-r7-C08-1.patch'),
+ dict(name='benign-r7-C08-2', prop='C08', benign=True, expect='', patch='selftest/fixes/benign-r7-C08-2.patch'),
+ dict(name='benign-r7-C08-2-on-C01', prop='C01', benign=True, expect='', patch='selftest/fixes/benign-r7-C08-2.patch'),
+ dict(name='benign-r7-C08-3', prop='C08', benign=True, expect='', patch='selftest/fixes/benign-r7-C08-3.patch'),
+ dict(name='benign-r7-C08-3-on-C01', prop='C01', benign=True, expect='', patch='selftest/fixes/benign-r7-C08-3.patch'),
+ dict(name='benign-r7-C10-1', prop='C10', benign=True, expect='', patch='selftest/fixes/benign-r7-C10-1.patch'),
+ dict(name='benign-r7-C10-1-on-C02', prop='C02', benign=True, expect='', patch='selftest/fixes/benign-r7-C10-1.patch'),
+ dict(name='benign-r7-C10-2', prop='C10', benign=True, expect='', patch='selftest/fixes/benign-r7-C10-2.patch'),
+ dict(name='benign-r7-C10-2-on-C02', prop='C02', benign=True, expect='', patch='selftest/fixes/benign-r7-C10-2.patch'),
+ dict(name='benign-r7-C10-3', prop='C10', benign=True, expect='', patch='selftest/fixes/benign-r7-C10-3.patch'),
+ dict(name='benign-r7-C10-3-on-C02', prop='C02', benign=True, expect='', patch='selftest/fixes/benign-r7-C10-3.patch'),
+ dict(name='benign-r7-C12-1', prop='C12', benign=True, expect='', patch='selftest/fixes/benign-r7-C12-1.patch'),
+ dict(name='benign-r7-C12-1-on-C11', prop='C11', benign=True, expect='', patch='selftest/fixes/benign-r7-C12-1.patch'),
+ dict(name='benign-r7-C12-2', prop='C12', benign=True, expect='', patch='selftest/fixes/benign-r7-C12-2.patch'),
+ dict(name='benign-r7-C12-2-on-C11', prop='C11', benign=True, expect='', patch='selftest/fixes/benign-r7-C12-2.patch'),
+ dict(name='benign-r7-C12-3', prop='C12', benign=True, expect='', patch='selftest/fixes/benign-r7-C12-3.patch'),
+ dict(name='benign-r7-C12-3-on-C11', prop='C11', benign=True, expect='', patch='selftest/fixes/benign-r7-C12-3.patch'),
+ dict(name='benign-r7-C14-1', prop='C14', benign=True, expect='', patch='selftest/fixes/benign-r7-C14-1.patch'),
+ dict(name='benign-r7-C14-1-on-C13', prop='C13', benign=True, expect='', patch='selftest/fixes/benign-r7-C14-1.patch'),
+ dict(name='benign-r7-C14-2', prop='C14', benign=True, expect='', patch='selftest/fixes/benign-r7-C14-2.patch'),
+ dict(name='benign-r7-C14-2-on-C13', prop='C13', benign=True, expect='', patch='selftest/fixes/benign-r7-C14-2.patch'),
+ dict(name='benign-r7-C14-3', prop='C14', benign=True, expect='', patch='selftest/fixes/benign-r7-C14-3.patch'),
+ dict(name='benign-r7-C14-3-on-C13', prop='C13', benign=True, expect='', patch='selftest/fixes/benign-r7-C14-3.patch'),
+ dict(name='benign-r7-C16-1', prop='C16', benign=True, expect='', patch='selftest/fixes/benign-r7-C16-1.patch'),
+ dict(name='benign-r7-C16-1-on-C19', prop='C19', benign=True, expect='', patch='selftest/fixes/benign-r7-C16-1.patch'),
+ dict(name='benign-r7-C16-2', prop='C16', benign=True, expect='', patch='selftest/fixes/benign-r7-C16-2.patch'),
+ dict(name='benign-r7-C16-2-on-C19', prop='C19', benign=True, expect='', patch='selftest/fixes/benign-r7-C16-2.patch'),
+ dict(name='benign-r7-C16-3', prop='C16', benign=True, expect='', patch='selftest/fixes/benign-r7-C16-3.patch'),
+ dict(name='benign-r7-C16-3-on-C19', prop='C19', benign=True, expect='', patch='selftest/fixes/benign-r7-C16-3.patch'),
+ dict(name='benign-r7-C18-1', prop='C18', benign=True, expect='', patch='selftest/fixes/benign-r7-C18-1.patch'),
+ dict(name='benign-r7-C18-1-on-C05', prop='C05', benign=True, expect='', patch='selftest/fixes/benign-r7-C18-1.patch'),
+ dict(name='benign-r7-C18-2', prop='C18', benign=True, expect='', patch='selftest/fixes/benign-r7-C18-2.patch'),
+ dict(name='benign-r7-C18-2-on-C05', prop='C05', benign=True, expect='', patch='selftest/fixes/benign-r7-C18-2.patch'),
+ dict(name='benign-r7-C18-3', prop='C18', benign=True, expect='', patch='selftest/fixes/benign-r7-C18-3.patch'),
+ dict(name='benign-r7-C18-3-on-C05', prop='C05', benign=True, expect='', patch='selftest/fixes/benign-r7-C18-3.patch'),
+ dict(name='benign-r7-C20-1', prop='C20', benign=True, expect='', patch='selftest/fixes/benign-r7-C20-1.patch'),
+ dict(name='benign-r7-C20-1-on-C15', prop='C15', benign=True, expect='', patch='selftest/fixes/benign-r7-C20-1.patch'),
+ dict(name='benign-r7-C20-2', prop='C20', benign=True, expect='', patch='selftest/fixes/benign-r7-C20-2.patch'),
+ dict(name='benign-r7-C20-2-on-C15', prop='C15', benign=True, expect='', patch='selftest/fixes/benign-r7-C20-2.patch'),
+ dict(name='benign-r7-C20-3', prop='C20', benign=True, expect='', patch='selftest/fixes/benign-r7-C20-3.patch'),
+ dict(name='benign-r7-C20-3-on-C15', prop='C15', benign=True, expect='', patch='selftest/fixes/benign-r7-C20-3.patch'),
+]
